@@ -8,4 +8,3 @@ import XzVerif.Props.C18
 #print axioms Props.C18.encode_samples_agree
 #print axioms Props.C18.C18_source_encode
 #print axioms Props.C18.C18_source_decode
-#print axioms Props.C18.C18_source_translation_complete
